@@ -249,7 +249,8 @@ def analyse(ck):
         pre_term = P.norm(fe0[0].args[3]) if fe0 and len(fe0[0].args) > 3 else None
         if isinstance(pre_term, tuple) and pre_term and pre_term[0] == "map":
             smp = [e for e in cv.effects if e.raw.get("name") == "generate_random_nullifier_preimage"]
-            cl = [c for e in smp for c in e.ctrl if c[0] == "closure"]
+            # the sample sits in the map's closure: spliced as a closure entry, or (map(..).collect()) as a loop over the mapped range
+            cl = [c for e in smp for c in e.ctrl if c[0] == "closure" or (c[0] == "loop" and P.norm(c[1]) == P.norm(pre_term[1]))]
             if len(smp) == 1 and cl:
                 c_pre = (cl[0][3], None)
         elif isinstance(pre_term, tuple) and pre_term and pre_term[0] == "call" and len(pre_term) == 5:
@@ -323,7 +324,7 @@ def analyse(ck):
         want_end = ("len", cv.param(2))
     okg = isinstance(rt, tuple) and rt and rt[0] == "map" and circ.range_expr(rt[1]) is not None and P.const_of(circ.range_expr(rt[1])[0]) == 0 and P.norm(circ.range_expr(rt[1])[1]) == want_end
     inner = [e for e in gv.effects if e.raw.get("name") == "generate_random_nullifier_preimage"]
-    okg = okg and len(inner) == 1 and [c for c in inner[0].ctrl if c[0] == "closure"] != []
+    okg = okg and len(inner) == 1 and [c for c in inner[0].ctrl if c[0] == "closure" or (c[0] == "loop" and P.norm(c[1]) == P.norm(rt[1]))] != []
     ob.add({"C15"}, okg, "TERM", "preimages/one-call-per-slot", "generate_random_nullifier_preimage is called inside the per-slot closure of (0..n_slots).map(..): every slot gets its own sample", gv.loc0, T.show(rt)[:200])
     dv = e2.MethodView(ck, AGG + r"::dummy_proof::generate_random_nullifier_preimage$", AGG)
     rng_calls = [e for e in dv.effects if (e.raw.get("name") in ("thread_rng", "fill_bytes", "gen", "fill", "random", "try_fill_bytes"))]
